@@ -102,7 +102,7 @@ class SimSet(set):
             sched.stats.count("simset_iterations")
         perm = sched.permutation("set_order", len(items)) if items else []
         if sched.stats is not None and perm != sorted(perm):
-            sched.stats.fault("perm_features")
+            sched.stats.fault("set_iteration_permuted")
         return iter([items[i] for i in perm])
 
 
